@@ -86,12 +86,33 @@ structure Name where
   tag : String
   deriving DecidableEq, Repr, Inhabited
 
+/-- The name of a file in the blobs directory that is NOT `sha256-<64 hex digits>`:
+    `colon r` is the file `sha256:<r>` (what `fixBlobs` looks for: legacy stores named blobs with a colon),
+    `plain s` is any other name (`sha256-<hex>-partial`, `sha256-<hex>-partial-0`, `sha256-1234567` temp files,
+    wrong-length hex, `tmp-x`, …).  The oracle's parser keeps the representation canonical. -/
+inductive JName
+  | colon (rest : String)
+  | plain (s : String)
+  deriving DecidableEq, Repr, Inhabited
+
 structure Store where
+  /-- files `sha256-<key>` (key = 64 hex digits, either case) -/
   blobs : List (String × Bytes)
   mans : List (Name × MFile)
+  /-- every other file of the blobs directory -/
+  junk : List (JName × Bytes) := []
   deriving Inhabited
 
-def Store.empty : Store := ⟨[], []⟩
+def Store.empty : Store := ⟨[], [], []⟩
+
+/-- 64 hex digits (`[0-9a-fA-F]{64}` of `GetBlobsPath`) -/
+def isHex64 (s : String) : Bool :=
+  s.toList.length == 64 &&
+  s.toList.all (fun c => ('0' ≤ c && c ≤ '9') || ('a' ≤ c && c ≤ 'f') || ('A' ≤ c && c ≤ 'F'))
+
+def JName.str : JName → String
+  | .colon r => "sha256:" ++ r
+  | .plain s => s
 
 /-- what the real GGUF decoder reports and `createModel` copies into the config -/
 structure Meta where
@@ -550,12 +571,31 @@ def upload (env : Env) (st : Store) (d : Digest) (c : Bytes) : Store × List Str
 /-- `PruneLayers`: every blob file becomes the STRING `sha256:<hex>`; those no readable manifest mentions
     (string comparison) are removed -/
 def pruneLayers (env : Env) (st : Store) : Store :=
-  { st with blobs := st.blobs.filter (fun p => env.inUse st ⟨.colon, p.1⟩) }
+  { st with
+    blobs := st.blobs.filter (fun p => env.inUse st ⟨.colon, p.1⟩)
+    -- a name that does not parse as a digest after `-` ↦ `:` is removed ("invalid blobs, e.g. partial
+    -- downloads"); `sha256:<64 hex>` does parse: it goes into the delete map, and what is then removed is
+    -- the file `sha256-<hex>`, never the colon-named file itself
+    junk := st.junk.filter (fun p => match p.1 with
+      | .colon r => isHex64 r
+      | .plain _ => false) }
 
-/-- startup sequence of `Serve` (fixBlobs is the identity on blob keys; PruneDirectory only removes
-    empty directories): skipped entirely when any manifest fails to parse -/
+/-- `fixBlobs`: every file `sha256:<rest>` is renamed `sha256-<rest>` (replacing a file of that name) -/
+def fixBlobs (st : Store) : Store :=
+  let cols := st.junk.filterMap (fun p => match p.1 with
+    | .colon r => some (r, p.2)
+    | .plain _ => none)
+  let plains := st.junk.filter (fun p => match p.1 with
+    | .colon _ => false
+    | .plain _ => true)
+  { st with
+    blobs := cols.foldl (fun b rc => if isHex64 rc.1 then aset b rc.1 rc.2 else b) st.blobs
+    junk := cols.foldl (fun j rc => if isHex64 rc.1 then j else aset j (.plain ("sha256-" ++ rc.1)) rc.2) plains }
+
+/-- startup sequence of `Serve`: `fixBlobs`; then, unless some manifest fails to parse, `PruneLayers`
+    (`PruneDirectory` only removes empty manifest directories) -/
 def pruneStartup (env : Env) (st : Store) : Store × List String :=
-  if st.hasCorrupt then (st, ["skip"]) else (pruneLayers env st, ["ok"])
+  if st.hasCorrupt then (fixBlobs st, ["skip"]) else (pruneLayers env (fixBlobs st), ["ok"])
 
 /-- `ListHandler`: readable manifests whose config blob opens -/
 def listed (st : Store) : List Name :=
@@ -596,6 +636,12 @@ inductive Op
   | plant (src dst : Name)
   /-- NOT an API operation: a manifest file is damaged (torn write) -/
   | corrupt (n : Name)
+  /-- NOT an API operation: a file with a name that is not a blob name appears in the blobs directory
+      (interrupted pull: `sha256-<hex>-partial[-N]`; crash inside `NewLayer`: `sha256-<digits>`; legacy stores:
+      `sha256:<hex>`; anything else) -/
+  | litter (n : JName) (c : Bytes)
+  /-- NOT an API operation: a file named like a blob (`sha256-<64 hex>`, either case) is put there directly -/
+  | litterBlob (k : String) (c : Bytes)
   /-- NOT an API operation: the manifest spells its model-layer digests `sha256-<hex>` (manifests written by
       other tools / older versions; through the API only the pinned `create` with such a `files` value) -/
   | dashify (n : Name)
@@ -619,6 +665,8 @@ def step (env : Env) (st : Store) (op : Op) (ch : Choice) : Store × List String
     match st.man n with
     | some _ => (setManifest st n .corrupt, ["ok"])
     | none => (st, ["none"])
+  | .litter n c => ({ st with junk := aset st.junk n c }, ["ok"])
+  | .litterBlob k c => ({ st with blobs := aset st.blobs k c }, ["ok"])
   | .dashify n =>
     match st.man n with
     | some (.readable m) => (setManifest st n (.readable m.dashed), ["ok"])
